@@ -6,6 +6,17 @@ Property theorems only (proofs in `PySMT/Proofs/C16*.lean`).  All of them quanti
 that are legal in SMT-LIB: no bound on the length, on the arguments of push/pop, on the number of identifiers.
 `Spec` = `PySMT/Spec/AssertStack.lean`, models = `PySMT/Impl/Script.lean`, `PySMT/Impl/SolverTrack.lean`,
 decorator table = `PySMT/Gen/PendingPop.lean` (regenerated from /repo on every run).
+
+What the statements do NOT say (see also tools/manifest_texts/C16.json):
+* formulas are opaque ids: the script theorems speak about the LIST handed to `mgr.And` (the harness checks, by object
+  identity, that the real result is `mgr.And` of exactly that list; `And([]) = TRUE`, `And([x]) = x` is C06's matter),
+  and only about the `return_optimizations=True` shape (the other one is its first component);
+* solver side: the native solver is an ideal SMT-LIB stack; `options.incremental = True` (the non-incremental branch
+  of `Solver.is_sat`, solver.py:105-114, makes the solver single-use and is not modelled); classes overriding `is_sat`
+  are outside (`usesBaseIsSat`; there is none in the tree); for classes without an `assertions` list
+  (`tracking = false`) the statements are about what the native check runs on;
+* `oneshot_restores_partial` excludes, for wrappers whose assumption path is not protected (finding F44:
+  MathSAT5Solver, YicesSolver, BddSolver, PicosatSolver), the histories in which asserting an assumption raises.
 -/
 
 namespace PySMT.Props.C16
@@ -29,6 +40,21 @@ theorem goals_refine (cmds : List Cmd) (h : Legal cmds) :
   cases hs : run cmds with
   | none => simp [hs] at h
   | some s => exact ⟨s, rfl, by rw [lastFormula_refines cmds s hs]; rfl⟩
+
+/-- Exactness: the replay loop returns a result exactly on the scripts that are legal in SMT-LIB … -/
+theorem script_exact (cmds : List Cmd) : (∃ r, Script.lastFormula cmds = .ok r) ↔ Legal cmds := by
+  unfold Legal
+  cases hs : run cmds with
+  | none => simp [lastFormula_illegal cmds hs]
+  | some s => simp [lastFormula_refines cmds s hs]
+
+/-- … and on an illegal one it raises `IndexError`, whatever follows the illegal `pop`: an illegal script is never
+    silently accepted. -/
+theorem script_illegal (cmds : List Cmd) (h : ¬ Legal cmds) : Script.lastFormula cmds = .error .indexError := by
+  unfold Legal at h
+  cases hs : run cmds with
+  | none => exact lastFormula_illegal cmds hs
+  | some s => simp [hs] at h
 
 /-- `get_strict_formula` accepts a script iff it has no push / pop / reset-assertions and exactly one check-sat, and
     then returns the conjunction of its assert commands … -/
@@ -61,13 +87,56 @@ theorem placement_table : ∀ c ∈ classes, isConcrete classes c = true → use
     Covers (configOf classes c) = true ∧ extrasCovered classes c = true :=
   placement_table_holds
 
-/-- Hence, for every concrete solver class of the tree: one-shot queries, whether they answer or raise, leave the
-    assertions as they found them. -/
-theorem oneshot_restores : ∀ c ∈ classes, isConcrete classes c = true → usesBaseIsSat classes c = true →
+/-- The glue route `SmtLibScript.evaluate(solver)` / `InterpreterSMT`: a legal script without optimisation commands,
+    executed command by command (`interp`: assert → add_assertion, push n → push(n), pop n → pop(n), reset-assertions →
+    reset_assertions(), check-sat → solve()) on a solver whose placement covers the entry points, raises nothing, and
+    afterwards the solver's `assertions` list and the formula `get_last_formula` reports for the same script are the same
+    list: the live assertions.  (Holds for every prefix too: prefixes of legal plain scripts are legal and plain.) -/
+theorem evaluate_agrees (cfg : Config) (hc : Covers cfg = true) (cmds : List Cmd) (hp : cmds.all Plain = true)
+    (s : Stack) (hs : run cmds = some s) :
+    ∃ st, SolverTrack.run cfg (interp cmds) = .ok st ∧
+      (cfg.tracking = true → observe cfg st = .ok (live s) ∧ (Script.lastFormula cmds).map Prod.fst = .ok (live s)) ∧
+      (cfg.native = true ∨ cfg.tracking = true → wouldCheck cfg st = .ok (live s)) :=
+  Proofs.C16.evaluate_agrees hc cmds hp s hs
+
+/-- Every component of the placement condition except the decorator on `pop` is also NECESSARY: a placement that
+    implements `push`, has something to observe (native stack or assertion list) and misses the decorator on
+    add_assertion, push, solve, reset_assertions (with a native stack) or `assertions` (with a list) violates
+    `TrackRefines` on one of seven fixed histories (`Proofs.C16.witnesses`).  The decorator on `pop` is not needed for
+    these statements: an undecorated `pop n` followed by the pending pop removes the same levels. -/
+theorem placement_necessary (cfg : Config) (hp : cfg.pushSupported = true)
+    (ho : cfg.native = true ∨ cfg.tracking = true) (hc : Covers { cfg with dPop := true } = false) :
+    ¬ TrackRefines cfg := by
+  obtain ⟨a, b, p, d, e, f, g, h, i, j, k⟩ := cfg
+  simp only at hp ho hc
+  subst hp
+  exact not_trackRefines_of_refuted (refuted_of_not_covers a b d e f g h j k (by
+    cases ho with
+    | inl h1 => simp [h1]
+    | inr h1 => simp [h1]) hc p)
+
+/-- For every concrete solver class of the tree: one-shot queries — `is_sat`, `is_valid`, `is_unsat`, `solve([f])`
+    with `f` passed natively or asserted in a temporary level, answering or raising — leave the assertions as they
+    found them, and the class refines the assertion stack.
+    PARTIAL: `OneshotRestores` / `TrackRefines` exclude (`Admits`) the histories in which asserting an assumption
+    raises when the class does not protect its `pending_pop` assignment (`assumeGuarded = false`); for those
+    histories the statement is false (`assume_path_leaks`, finding F44).  Full statement: `OneshotRestoresFull`. -/
+theorem oneshot_restores_partial : ∀ c ∈ classes, isConcrete classes c = true → usesBaseIsSat classes c = true →
     OneshotRestores (configOf classes c) ∧ TrackRefines (configOf classes c) :=
   fun c hc h1 h2 =>
     ⟨oneshotRestores_of_covers (placement_table_holds c hc h1 h2).1,
      trackRefines_of_covers (placement_table_holds c hc h1 h2).1⟩
+
+/-- … without the exclusion for the classes whose assumption path is protected (Z3Solver since the repair) and for
+    those that have no such path (the table says which). -/
+theorem oneshot_restores_guarded : ∀ c ∈ classes, isConcrete classes c = true → usesBaseIsSat classes c = true →
+    (configOf classes c).assumeGuarded = true → OneshotRestoresFull (configOf classes c) :=
+  fun c hc h1 h2 hg => full_of_guarded hg (oneshotRestores_of_covers (placement_table_holds c hc h1 h2).1)
+
+/-- The exclusion is needed: with every decorator in place but the assumption path unprotected (MathSAT5Solver; Z3Solver
+    before the repair) `push; assert 2; solve([f])` raising while it asserts `f`; `pop` leaves `2` asserted. -/
+theorem assume_path_leaks : ¬ OneshotRestoresFull unguardedTracking :=
+  not_full_unguarded
 
 /-! ## Non-vacuity: the hypotheses are satisfiable, the statements say something -/
 
@@ -87,9 +156,9 @@ example : Script.strictFormula [.assert 1, .reset, .assert 2, .check] = .error .
 example : Script.strictFormula [.assert 1, .check, .check] = .error .valueError := rfl
 
 /-- the placement of Z3Solver / MathSAT5Solver / BoolectorSolver -/
-def allDecorated : Config := ⟨true, true, true, true, true, true, true, true, true⟩
+def allDecorated : Config := ⟨true, true, true, true, true, true, true, true, true, true, true⟩
 /-- the placement CVC5Solver / CVC4Solver had before the repair (finding F27) -/
-def noneDecorated : Config := ⟨false, false, false, false, false, false, false, true, true⟩
+def noneDecorated : Config := ⟨false, false, false, false, false, false, false, true, true, false, false⟩
 
 example : Covers allDecorated = true := by decide
 example : LegalOps [.assert 2, .oneshot .isValid 4, .push 2, .assert 6, .oneshot .isSat 8, .pop 1, .read, .solve] := by
@@ -99,6 +168,11 @@ example : (SolverTrack.run allDecorated [.assert 2, .oneshot .isSat 4]).map (fun
     .ok ([2, 4], true) := rfl
 example : (SolverTrack.run allDecorated [.assert 2, .oneshot .isSat 4, .solve]).map (fun st => (st.tracked, st.checks)) =
     .ok ([2], [[2], [2, 4]]) := rfl
+-- the glue route: a plain legal script and the calls it makes
+example : interp [.assert 1, .other, .push 2, .assert 3, .check, .pop 2, .reset] =
+    [.assert 1, .push 2, .assert 3, .solve, .pop 2, .reset] := rfl
+example : [Cmd.assert 1, .other, .push 2, .assert 3, .check, .pop 2].all Plain = true ∧
+    Legal [.assert 1, .other, .push 2, .assert 3, .check, .pop 2] := by decide
 -- a query that raises (unknown result / formula that cannot be asserted) also leaves a pending pop behind …
 example : (SolverTrack.run allDecorated [.assert 2, .oneshotFails .isSat .solve 4]).map
     (fun st => (st.native, st.tracked, st.pending)) = .ok ([[4], [2]], [2, 4], true) := rfl
@@ -109,12 +183,23 @@ example : (SolverTrack.run allDecorated [.assert 2, .oneshotFails .isSat .solve 
     (fun st => (st.native, st.tracked, st.checks)) = .ok ([[2]], [2], [[2], [2, 4]]) := rfl
 example : LegalOps [.assert 2, .oneshotFails .isSat .solve 4, .push 1, .oneshotFails .isUnsat .add 6, .pop 1] := by decide
 example : (Op.oneshotFails .isSat .solve 4).isOneshot = true := rfl
+-- solve([f]) through a temporary level: pending afterwards, removed by the next call; protected when asserting raises
+example : (SolverTrack.run allDecorated [.assert 2, .assumingPush 6]).map
+    (fun st => (st.native, st.tracked, st.pending, st.checks)) = .ok ([[6], [2]], [2, 6], true, [[2, 6]]) := rfl
+example : (SolverTrack.run allDecorated [.push 1, .assert 2, .assumingPushFails 6, .pop 1, .read]).map
+    (fun st => (st.native, st.tracked)) = .ok ([[]], []) := rfl
+example : Admits unguardedTracking [.assert 2, .assumingPush 6, .oneshotFails .isSat .add 4] := by decide
+example : ¬ Admits unguardedTracking [.assumingPushFails 6] := by decide
+-- hypotheses of `placement_necessary` are satisfiable by placements that miss exactly one decorator
+example : Covers { (⟨false, true, true, true, true, true, true, true, true, true, true⟩ : Config) with dPop := true } = false := by
+  decide
+example : Covers ⟨true, true, false, true, true, true, true, true, true, true, true⟩ = false := by decide
 -- the placement condition is needed: with no decorator the one-shot formula stays asserted (F27) …
 example : Covers noneDecorated = false := by decide
 example : (SolverTrack.run noneDecorated [.assert 2, .oneshot .isSat 4, .solve]).map (fun st => st.checks) =
     .ok [[2, 4], [2, 4]] := rfl
 -- … and leaving out a single one (here `reset_assertions`) makes a later call fail in the native solver
-example : SolverTrack.run ⟨true, true, true, false, true, true, true, true, true⟩
+example : SolverTrack.run ⟨true, true, true, false, true, true, true, true, true, false, false⟩
     [.oneshot .isSat 4, .reset, .assert 2] = .error .nativeError := rfl
 -- the table contains the classes the theorems talk about
 example : (classes.filter fun c => isConcrete classes c && usesBaseIsSat classes c).length ≥ 10 :=
